@@ -105,7 +105,7 @@ def type_cells():
 
 
 def search(skip_known=True):
-    hit = submodule_cases() or extends_cases() or same_name_cases() or binding_attribute_case() or multi_name_binding_case() or accessible_set_case()
+    hit = submodule_cases() or extends_cases() or same_name_cases() or binding_attribute_case() or multi_name_binding_case() or accessible_set_case() or protected_and_public_case()
     if hit:
         return hit
     for cell in cells():
@@ -240,6 +240,18 @@ def multi_name_binding_case():
     want = {"vault%peek": "private", "vault%poke": "private", "vault%open_it": "public", "vault%shut_it": "public", "box%fill": "public", "box%drain": "public"}
     if got != want:
         return {"confirmed": True, "input": {"source": text}, "actual": got, "expected": want, "how": "real parser: accessibility of the bindings of multi-name PROCEDURE statements"}
+    return None
+
+
+def protected_and_public_case():
+    """PROTECTED is not an accessibility: a variable that is protected and named in a PUBLIC statement is still protected (FORD shows one word for both) - whichever form,
+    attribute or statement, gives each of the two"""
+    text = ("module m\n  implicit none\n  private\n  integer, protected :: a\n  integer :: b\n  integer, public :: c\n  integer, public, protected :: d\n  public :: a, b\n  protected :: b, c\nend module m\n")
+    m = realrun.parse_source(text).modules[0]
+    got = {v.name: v.permission for v in m.variables}
+    want = {"a": "protected", "b": "protected", "c": "protected", "d": "protected"}
+    if got != want:
+        return {"confirmed": True, "input": {"source": text}, "actual": got, "expected": want, "how": "real parser: accessibility word of variables that are both PUBLIC and PROTECTED"}
     return None
 
 
